@@ -809,6 +809,33 @@ func genShutdownTrigger(g *Gen) string {
 	}
 }
 
+// genRelease (C10): a hostile peer is connected — idle, mid-frame or not reading
+// its replies — when the service is shut down and disappears only afterwards;
+// its resources are released all the same: the serving call returns, and the
+// next serving round, started with an idle timeout and visited by nobody, stops
+// by itself.
+func genRelease(g *Gen, prop string) *LifeScenario {
+	s := &LifeScenario{Prop: prop, Config: genConfig(g), Scripts: map[int]Script{}}
+	s.Service = genService(g, 1+g.IntN(2), "unix:@release")
+	s.Rounds = []RoundSpec{{UseBind: g.Pct(50)}, {UseBind: g.Pct(50), TimeoutNs: int64(1+g.IntN(20)) * 1e6}}
+	s.Ctl = [][]CtlOp{{{Wait: "accepted:1", Op: "shutdown"}}}
+	cid := 0
+	a := genLifeClient(g, s, &cid, true)
+	a.Cuts, a.PauseUs = nil, nil
+	switch g.IntN(3) {
+	case 0: // idle after complete calls
+	case 1: // mid-frame
+		if n := len(a.stream()); n > 2 {
+			a.StopAfter = 1 + g.IntN(n-1)
+		}
+	default: // never reads its replies
+		a.NoRead = true
+	}
+	a.End = g.Pick("close", "abort-quiet")
+	s.Clients = append(s.Clients, a)
+	return s
+}
+
 // genServeCtx (C17): the context given to Listen / DoListen ends — cancelled, or
 // like a deadline that passes — while accepted connections are idle, mid-frame
 // or busy: the per-connection reads return, the connections end, and the
